@@ -148,7 +148,7 @@ def serialize (H : Hashes) (m : Msg) (secret : Option Bytes) : SerRes :=
       match step1 with
       | none => .fault
       | some buf1 =>
-        if m.code = 2 ∨ m.code = 3 ∨ m.code = 11 ∨ m.code = 5 ∨ m.code = 4 then
+        if m.code = 2 ∨ m.code = 3 ∨ m.code = 11 ∨ m.code = 5 ∨ m.code = 4 ∨ m.code = 42 ∨ m.code = 45 then
           let sig := H.md5 (buf1 ++ sec)
           let buf2 := splice buf1 4 sig
           .ok buf2 (if m.code = 4 then sig else m.auth)
